@@ -50,6 +50,8 @@
                                 SpecKids, sort of any element returns OK and keeps SpecKids.  [P]: SpecKids (every child findable in
                                 its parent's type under u32::MAX, spec lookups of node types do not panic, names in their tables)
                                 is not proved to be kept by the 26 operations; it is decidable: C14_spec_kids_decidable.
+   [U] C14_findable_mono        a name found by find_sub_element under a 32-bit version mask (what every insertion path checks) is found
+                                under u32::MAX (what sort looks up) unless the wider lookup runs into a table panic
    [F] C14_cmp_cyclic_refuted   the comparison BEFORE fix 4192043 (policy_v0) ordered a2 < a10 < a1b < a2 (tiny tables)
    [F] C14_v0_skipped_stage_refuted, C14_v0_nan_refuted   the two other defects before fixes 9393763 and 637b913 *)
 From Coq Require Import Permutation.
@@ -206,3 +208,8 @@ Proof. exact never_fails_histories. Qed.
 Theorem C14_spec_kids_decidable : forall T tab_el tab_at tab_en w,
   alloc_bound w -> spec_kids_b T tab_el tab_at tab_en w = true -> SpecKids T tab_el tab_at tab_en w.
 Proof. exact spec_kids_b_sound. Qed.
+
+Theorem C14_findable_mono : forall T ty target v r, v < 2 ^ 32 ->
+  find_sub_element T ty target v = Val (Some r) -> (exists r', find_sub_element T ty target MAXV = Val r') ->
+  exists et idx, find_sub_element T ty target MAXV = Val (Some (et, idx)).
+Proof. exact findable_mono. Qed.
